@@ -365,3 +365,40 @@ def chunk_index(fn, site):
                     if K is not None and K % N == 0 and 0 <= k < N:
                         return f"CHUNK: element of chunks({N}) of a slice of exactly {K} bytes ({K} % {N} == 0), index {k} < {N}"
     return None
+
+
+def str_slice_guarded(fn, site):
+    """STR: `s[a..b]` with constant a <= b on a `str`, inside the taken branch of a test that establishes
+    `s.len() == K` (b <= K) and `s.is_ascii()` — every byte offset of an ASCII string is a character boundary"""
+    n = site["node"]
+    base = core.strip(n["l"])
+    if base.get("k") != "Path" or base.get("res") != "local" or "str" not in (site.get("base_ty") or base.get("ty") or ""):
+        return None
+    r = core.strip(n["r"])
+    lo = hi = None
+    if r.get("k") == "Struct":
+        for f in r.get("fields") or []:
+            if f.get("f") == "start":
+                lo = const_int(f["e"])
+            if f.get("f") == "end":
+                hi = const_int(f["e"])
+    if lo is None or hi is None or lo > hi:
+        return None
+    lid = base["lid"]
+    for x in core.walk_fn(fn):
+        if x.get("k") != "If" or not any(y is n for y in core.walk(x["t"])):
+            continue
+        K = None
+        ascii_ = False
+        for y in core.walk(x["c"]):
+            if y.get("k") == "Binary" and y["op"] == "==":
+                for a, b in ((y["l"], y["r"]), (y["r"], y["l"])):
+                    a0 = core.strip(a)
+                    if a0.get("k") == "MethodCall" and a0["m"] == "len" and core.strip(a0["recv"]).get("lid") == lid and const_int(b) is not None:
+                        K = const_int(b)
+            if y.get("k") == "MethodCall" and y["m"] == "is_ascii" and core.strip(y["recv"]).get("lid") == lid:
+                ascii_ = True
+        # both facts must hold on the taken branch: the condition is a conjunction of them (no `||`)
+        if K is not None and ascii_ and hi <= K and not any(y.get("k") == "Binary" and y["op"] == "||" for y in core.walk(x["c"])):
+            return f"STR: slice {lo}..{hi} of an ASCII string of exactly {K} bytes"
+    return None
